@@ -93,7 +93,7 @@ theorem cumCosts_go_getElem? (O : Obj σ γ) (l : List σ) : ∀ (acc : γ) (pre
       simp only [Obj.cumCosts.go, List.getElem?_cons_succ, List.take_succ_cons, Obj.pathCost.go]
       exact ih _ b j (by simpa using hi)
 
-theorem cumCosts_length (O : Obj σ γ) (st : List σ) : (O.cumCosts st).length = st.length := by
+theorem objCumCosts_length (O : Obj σ γ) (st : List σ) : (O.cumCosts st).length = st.length := by
   cases st with
   | nil => rfl
   | cons a r => exact cumCosts_go_length O r _ a
@@ -108,7 +108,7 @@ theorem cumCosts_getElem? (O : Obj σ γ) (st : List σ) (i : Nat) (hi : i < st.
 theorem cumCosts_getElem?_some (O : Obj σ γ) (st : List σ) (i : Nat) (c : γ)
     (h : (O.cumCosts st)[i]? = some c) : i < st.length ∧ c = O.pathCost (st.take (i + 1)) := by
   have hi : i < st.length := by
-    rw [← cumCosts_length O st]
+    rw [← objCumCosts_length O st]
     exact (List.getElem?_eq_some_iff.mp h).1
   rw [cumCosts_getElem? O st i hi, Option.some.injEq] at h
   exact ⟨hi, h.symm⟩
@@ -117,7 +117,7 @@ theorem cumCosts_getElem?_some (O : Obj σ γ) (st : List σ) (i : Nat) (c : γ)
 theorem cumCosts_back (O : Obj σ γ) (st : List σ) (c : γ)
     (h : (O.cumCosts st)[(O.cumCosts st).length - 1]? = some c) : c = O.pathCost st := by
   obtain ⟨hi, hc⟩ := cumCosts_getElem?_some O st _ c h
-  rw [cumCosts_length] at hc hi
+  rw [objCumCosts_length] at hc hi
   rw [hc, show st.length - 1 + 1 = st.length by omega, List.take_length]
 
 theorem cumDistsG_go_length (N : NumOps α) (dist : σ → σ → α) (l : List σ) : ∀ (acc : α) (prev : σ),
@@ -727,7 +727,7 @@ theorem bgAttempt_none_cases {E : BgEnv σ α γ} {st : List σ} {goal : σ} {uk
   have hds : (cumDistsG E.N E.dist st).toArray.size = st.length := by
     rw [List.size_toArray, cumDistsG_length]
   have hcs : (E.O.cumCosts st).toArray.size = st.length := by
-    rw [List.size_toArray, cumCosts_length]
+    rw [List.size_toArray, objCumCosts_length]
   unfold bgAttempt at h
   extract_lets at h
   split at h
